@@ -254,7 +254,7 @@ func (w *World) buildEffects() *Effects {
 					pos = c.Pos()
 				}
 				if c.IsInvoke() {
-					name := shortName(c.Method.FullName())
+					name := ifaceCalleeName(c.Method)
 					e.add(&Site{Fn: fn, Instr: in, Kind: SIface, Method: c.Method.Name(), Callee: name, Pos: pos})
 					for _, t := range e.impls[name] {
 						e.edges[fn] = append(e.edges[fn], t)
@@ -293,6 +293,13 @@ func (w *World) buildEffects() *Effects {
 						e.edges[fn] = append(e.edges[fn], t)
 					}
 				default:
+					// a function value that can only be one of the closures / functions this very
+					// function put into a local (a table of checks, a step list): its possible
+					// targets are already edges of fn (MakeClosure / function references), so the
+					// call adds no unknown effect
+					if localFuncValue(c.Value, 0, map[ssa.Value]bool{}) {
+						continue
+					}
 					s := &Site{Fn: fn, Instr: in, Kind: SDyn, Pos: pos}
 					if o, f, ok := fieldOf(c.Value); ok {
 						s.Owner, s.Field = typeName(o), f
@@ -574,9 +581,109 @@ func (s *Site) IsCollWrite() bool {
 // ("(*pkg.T).M" and "(pkg.T).M" are the same method for tables and reports), so switching a
 // type between value and pointer receivers changes nothing.
 func fnShort(f *ssa.Function) string {
+	if ci := canonOf(f); ci != nil {
+		return ci.name
+	}
 	n := shortName(f.String())
 	if strings.HasPrefix(n, "(*") {
 		n = "(" + n[2:]
 	}
 	return n
+}
+
+// localFuncValue: v is, on every flow, a closure or function that the enclosing function itself
+// created and kept in local storage (variables, local arrays / slices / struct literals).
+func localFuncValue(v ssa.Value, depth int, seen map[ssa.Value]bool) bool {
+	if depth > 8 {
+		return false
+	}
+	if seen[v] {
+		return true
+	}
+	seen[v] = true
+	switch x := v.(type) {
+	case *ssa.MakeClosure, *ssa.Function:
+		return true
+	case *ssa.Phi:
+		for _, e := range x.Edges {
+			if !localFuncValue(e, depth+1, seen) {
+				return false
+			}
+		}
+		return true
+	case *ssa.ChangeType:
+		return localFuncValue(x.X, depth+1, seen)
+	case *ssa.Field:
+		return localFuncValue(x.X, depth+1, seen)
+	case *ssa.Index:
+		return localFuncValue(x.X, depth+1, seen)
+	case *ssa.UnOp:
+		if x.Op != token.MUL {
+			return false
+		}
+		// a load: every store into the local cell it reads must be a local function value
+		root := x.X
+		for {
+			switch a := root.(type) {
+			case *ssa.IndexAddr:
+				root = a.X
+				continue
+			case *ssa.FieldAddr:
+				root = a.X
+				continue
+			case *ssa.Slice:
+				root = a.X
+				continue
+			}
+			break
+		}
+		al, ok := root.(*ssa.Alloc)
+		if !ok {
+			return false
+		}
+		return allocHoldsLocalFuncs(al, depth+1, seen)
+	}
+	return false
+}
+
+// allocHoldsLocalFuncs: every function-typed value stored (directly or into an element / field)
+// of the local cell is itself a local function value, and the cell does not escape to a callee.
+func allocHoldsLocalFuncs(al *ssa.Alloc, depth int, seen map[ssa.Value]bool) bool {
+	var addrs []ssa.Value = []ssa.Value{al}
+	n := 0
+	for i := 0; i < len(addrs); i++ {
+		refs := addrs[i].Referrers()
+		if refs == nil {
+			continue
+		}
+		for _, r := range *refs {
+			switch u := r.(type) {
+			case *ssa.IndexAddr:
+				addrs = append(addrs, u)
+			case *ssa.FieldAddr:
+				addrs = append(addrs, u)
+			case *ssa.Slice:
+				addrs = append(addrs, u)
+			case *ssa.Store:
+				if u.Addr != addrs[i] {
+					return false // the cell's address is stored somewhere: escapes
+				}
+				if _, isFn := u.Val.Type().Underlying().(*types.Signature); isFn {
+					n++
+					if !localFuncValue(u.Val, depth+1, seen) {
+						return false
+					}
+				}
+			case *ssa.UnOp, *ssa.DebugRef, *ssa.Range, *ssa.Next:
+			case ssa.CallInstruction:
+				if bi, ok := u.Common().Value.(*ssa.Builtin); ok && (bi.Name() == "len" || bi.Name() == "cap") {
+					continue
+				}
+				return false
+			default:
+				return false
+			}
+		}
+	}
+	return n > 0
 }
